@@ -62,7 +62,13 @@ func crashChild(r *rng, n int) {
 	}
 	ups := []config.UpstreamConfig{{Name: "u1", Servers: []config.UpstreamServerConfig{{Addr: "http://127.0.0.1:1"}}}}
 	upstream.Reset(ups)
-	var rid int64 = int64(from) * 1000
+	// response ids are unique across the incarnations of one trial (a child killed during step s is restarted AT
+	// step s: numbering by the step alone would hand out the same ids twice)
+	incarnation := 0
+	if len(parts) > 3 {
+		incarnation, _ = strconv.Atoi(parts[3])
+	}
+	var rid int64 = int64(incarnation*100+from) * 1000
 	upstream.Get("u1").Proxy = func(c *elton.Context) error {
 		id := atomic.AddInt64(&rid, 1)
 		ttl := 2 + int(id%4)
@@ -153,7 +159,7 @@ func suiteCrash(r *rng, n int) {
 		total := 60
 		kills := 0
 		for from < total {
-			cmd := exec.Command(self, "crashchild", "-seed", fmt.Sprint(tr.s%1000000), "-n", fmt.Sprint(total-from), "-opt", fmt.Sprintf("%s|%d|%d", dir, from, offset))
+			cmd := exec.Command(self, "crashchild", "-seed", fmt.Sprint(tr.s%1000000), "-n", fmt.Sprint(total-from), "-opt", fmt.Sprintf("%s|%d|%d|%d", dir, from, offset, kills))
 			cmd.Stderr = nil
 			stdout, _ := cmd.StdoutPipe()
 			if err := cmd.Start(); err != nil {
